@@ -64,12 +64,46 @@ def read_y_rules(text):
     if len(parts) < 3:
         raise GrammarError('parser.y: cannot find the rules section')
     s = parts[1]
+    # file-level named constants of the prologue (static constexpr bool kControllable = true; #define NO_RATE false): the actions are read with
+    # the literal each stands for
+    consts = {}
+    for m in re.finditer(r'(?m)^\s*(?:static\s+|inline\s+)*(?:constexpr|const)\s+(?:static\s+)?(?:bool|int|unsigned|auto)\s+(\w+)\s*(?:=\s*([\w-]+)\s*|\{\s*([\w-]+)\s*\})\s*;', parts[0]):
+        consts[m.group(1)] = m.group(2) or m.group(3)
+    for m in re.finditer(r'(?m)^[ \t]*#[ \t]*define[ \t]+(\w+)[ \t]+(true|false|-?\d+)[ \t]*(?://.*|/\*.*\*/[ \t]*)?$', parts[0]):
+        consts[m.group(1)] = m.group(2)
+    consts = {k: v for k, v in consts.items() if re.fullmatch(r'true|false|-?\d+', v)}
+    const_re = re.compile(r'(?<![\w$@.>:])(' + '|'.join(map(re.escape, consts)) + r')(?![\w(])') if consts else None
     i, n = 0, len(s)
     rules = []
     cur_lhs, alts, cur = None, None, None
 
     def new_alt():
-        return dict(items=[], prec=None)
+        return dict(items=[], prec=None, names={})
+
+    def named(i):
+        """bison's named references: sym[name] gives the item just read a name; returns the index after it"""
+        m = re.match(r'\s*\[\s*([A-Za-z_][A-Za-z0-9_.-]*)\s*\]', s[i:])
+        if m and cur is not None and cur['items']:
+            cur['names'][m.group(1)] = len(cur['items'])
+            return i + m.end()
+        return i
+
+    def close(alt):
+        """$name / $[name] / @name / @[name] in the actions become the positional $k / @k they stand for (a symbol that occurs once in the
+        rule may also be referred to by its own name)"""
+        names = dict(alt.pop('names'))
+        if const_re:
+            alt['items'] = [(k, const_re.sub(lambda m: consts[m.group(1)], v) if k == 'act' else v) for k, v in alt['items']]
+        syms = [v for k, v in alt['items'] if k == 'sym']
+        for pos, (k, v) in enumerate(alt['items']):
+            if k == 'sym' and syms.count(v) == 1 and re.fullmatch(r'[A-Za-z_]\w*', v) and v != cur_lhs:
+                names.setdefault(v, pos + 1)
+        if names:
+            def sub(m):
+                nm = m.group(2) or m.group(3)
+                return m.group(1) + str(names[nm]) if nm in names else m.group(0)
+            alt['items'] = [(k, re.sub(r'([$@])(?:\[([A-Za-z_][A-Za-z0-9_.-]*)\]|([A-Za-z_]\w*))', sub, v) if k == 'act' else v) for k, v in alt['items']]
+        return alt
     while i < n:
         c = s[i]
         if c.isspace():
@@ -83,13 +117,13 @@ def read_y_rules(text):
             if cur is None:
                 raise GrammarError('action outside a rule')
             cur['items'].append(('act', s[i + 1:j - 1]))
-            i = j
+            i = named(j)
         elif c == '|':
-            alts.append(cur)
+            alts.append(close(cur))
             cur = new_alt()
             i += 1
         elif c == ';':
-            alts.append(cur)
+            alts.append(close(cur))
             rules.append((cur_lhs, alts))
             cur_lhs = alts = cur = None
             i += 1
@@ -101,7 +135,7 @@ def read_y_rules(text):
             if s[j] != "'":
                 raise GrammarError('bad character literal at %d' % i)
             cur['items'].append(('sym', s[i:j + 1]))
-            i = j + 1
+            i = named(j + 1)
         elif c == '%':
             m = re.match(r"%prec\s+('.'|[A-Za-z_][A-Za-z0-9_]*)", s[i:])
             if m:
@@ -121,6 +155,8 @@ def read_y_rules(text):
             k = i
             while k < n and s[k].isspace():
                 k += 1
+            if cur_lhs is None:
+                k += (re.match(r'\[\s*[A-Za-z_][A-Za-z0-9_.-]*\s*\]\s*', s[k:]) or re.match('', '')).end()   # Lhs[name]:
             if cur_lhs is None or (k < n and s[k] == ':' and cur is None):
                 if k >= n or s[k] != ':':
                     raise GrammarError('expected ":" after ' + name)
@@ -128,6 +164,7 @@ def read_y_rules(text):
                 i = k + 1
             else:
                 cur['items'].append(('sym', name))
+                i = named(i)
     return rules
 
 
